@@ -520,6 +520,15 @@ impl Timestamp {
     /// ```
     #[inline]
     pub const fn constant(mut second: i64, mut nanosecond: i32) -> Timestamp {
+        // N.B. The ranged integers only check their bounds when debug
+        // assertions are enabled, so these checks are what makes this panic
+        // (as documented) in every build.
+        if !UnixSeconds::contains(second) {
+            panic!("invalid second");
+        }
+        if !FractionalNanosecond::contains(nanosecond) {
+            panic!("invalid nanosecond");
+        }
         if second == UnixSeconds::MIN_REPR && nanosecond < 0 {
             panic!("nanoseconds must be >=0 when seconds are minimal");
         }
